@@ -88,6 +88,7 @@ def run(prog, chk):
     chk.defer(parallel_lists_table, prog, chk)
     chk.defer(level_update_table, prog, chk)
     chk.defer(append_chain_table, prog, chk)
+    chk.defer(hash_release_table, prog, chk)
     chk.explanation = (
         "(R4) for every function of the 40 units and every pointer local that receives an object from a producer (derived from the callee's "
         "own body: its out-parameter only ever carries a fresh allocation, a new reference or another producer's result), an allocator or "
@@ -848,3 +849,51 @@ def append_chain_table(prog, chk):
             what = "expected an error and everything as before (level correction 5, the chain's time &OLDTIME and no index, chains ['CUR'], 1 TLV element); source: status %s, %s" % (
                 hex(q.ret) if isinstance(q.ret, int) else q.ret, state)
         chk.ob("C19.append", inst, ok, what, loc=fn.loc(), fn=fn, nontrivial=fail is not None)
+
+
+def hash_release_table(prog, chk):
+    """KSI_DataHash_free keeps released hash objects in a bin of the context for reuse; putting an object into the bin can need an
+    allocation (the bin's array grows).  Decision table over reference count x context / room in the bin x outcome of the append: the
+    last reference either ends in the bin (append succeeded) or in KSI_free, exactly one of the two - an object that is in neither
+    is lost (the function returns nothing, so nobody can notice), one that is in both is released twice."""
+    from ksirules.interp import TOP, Interp, Ptr, succeed_model, inline_model, unit_helpers
+    chk.rule("C19.hashrelease", "releasing a data hash: with the last reference gone the object is either accepted by the recycle bin or freed, "
+                                "exactly one of the two, also when the bin cannot grow (decision table)", floor=10)
+    fn = prog.fn("KSI_DataHash_free", "hash.c")
+    hp = fn.params[0]["n"]
+    oi = prog.const("KSI_OPT_DATAHASH_CACHE_SIZE")
+    for ref in (0, 1, 2):
+        for ctx, used, room in ((0, 0, 0), (1, 3, 10), (1, 10, 10), (1, 0, 0)):
+            for app_ok in (True, False):
+                if (not ctx or used >= room or ref != 1) and not app_ok:
+                    continue
+                freed, binned = [], []
+
+                def append(I, p, node, args, app_ok=app_ok):
+                    if app_ok:
+                        binned.append(args[1])
+                        return 0
+                    return 0x200
+                ov = {"KSI_free": lambda I, p, n, a: (freed.append(a[0]), TOP)[1], "KSI_DataHashList_append": append,
+                      "KSI_DataHashList_length": lambda I, p, n, a: used}
+                inputs = {hp: Ptr("H"), "H->ref": ref, "H->ctx": Ptr("CTX") if ctx else 0, "CTX->dataHashRecycle": Ptr("BIN"), "CTX->options[%d]" % oi: room}
+                hs = unit_helpers(prog, fn) - set(ov)
+                I = Interp(fn, inputs=inputs, call_model=inline_model(prog, hs, fallback=succeed_model(prog, ov)) if hs else succeed_model(prog, ov),
+                           on_unknown="stop", prog=prog)
+                paths = I.run()
+                chk.paths += len(paths)
+                inst = "DataHash_free[references %d, %s%s]" % (ref, "no context" if not ctx else "bin %d of %d" % (used, room),
+                                                                "" if app_ok else ", the bin cannot grow")
+                if len(paths) != 1 or paths[0].undetermined:
+                    raise AnalysisBroken("%s: evaluation not determined: %s" % (inst, [q.undetermined[:1] for q in paths]))
+                q = paths[0]
+                if ref == 2:
+                    want = (0, 0, 1)
+                elif ref == 0 or not ctx or used >= room or not app_ok:
+                    want = (1, 0, None)
+                else:
+                    want = (0, 1, 0)
+                got = (len([x for x in freed if x == Ptr("H")]), len([x for x in binned if x == Ptr("H")]), I.read(q, "H->ref") if want[2] is not None else None)
+                chk.ob("C19.hashrelease", inst, got == want,
+                       "expected (freed, in the bin%s) = %s; source: %s" % (", references left" if want[2] is not None else "", tuple(x for x in want if x is not None),
+                                                                           tuple(x for x in got if x is not None)), loc=fn.loc(), fn=fn, nontrivial=not app_ok or ref == 1)
